@@ -9,6 +9,7 @@ import (
 	"go/types"
 	"os"
 	"path/filepath"
+	"reflect"
 	"sort"
 	"strconv"
 	"strings"
@@ -45,9 +46,11 @@ func loadRulesPkg() (*token.FileSet, []*ast.File, *types.Info, error) {
 	}
 	info := &types.Info{Types: map[ast.Expr]types.TypeAndValue{}, Defs: map[*ast.Ident]types.Object{}, Uses: map[*ast.Ident]types.Object{}}
 	// resolve the module's own import paths relative to the repository root
+	wd, _ := os.Getwd()
 	os.Chdir(*repo)
 	conf := types.Config{Importer: importer.ForCompiler(fset, "source", nil), Error: func(error) {}}
 	_, err = conf.Check("github.com/ilius/libgostarcal/event/rules_lib", fset, files, info)
+	os.Chdir(wd)
 	if err != nil {
 		return nil, nil, nil, fmt.Errorf("type-checking rules_lib: %v", err)
 	}
@@ -144,7 +147,10 @@ func genRules() (string, error) {
 					switch id.Name {
 					case "valueDecoders":
 						for _, el := range cl.Elts {
-							kv := el.(*ast.KeyValueExpr)
+							kv, ok0 := el.(*ast.KeyValueExpr)
+							if !ok0 {
+								continue
+							}
 							k, ok1 := constString(info, kv.Key)
 							fl, ok2 := kv.Value.(*ast.FuncLit)
 							if ok1 && ok2 {
@@ -152,17 +158,30 @@ func genRules() (string, error) {
 							}
 						}
 					case "RulesRequire", "RulesConflictWith":
+						good := true
+						var rows [][2]interface{}
 						for _, el := range cl.Elts {
-							kv := el.(*ast.KeyValueExpr)
-							k, _ := constString(info, kv.Key)
-							var vals []string
-							if vl, ok := kv.Value.(*ast.CompositeLit); ok {
-								for _, v := range vl.Elts {
-									s, _ := constString(info, v)
-									vals = append(vals, s)
-								}
+							kv, ok0 := el.(*ast.KeyValueExpr)
+							if !ok0 {
+								good = false
+								break
 							}
-							tables[id.Name] = append(tables[id.Name], [2]interface{}{k, vals})
+							k, ok1 := constString(info, kv.Key)
+							vl, ok2 := kv.Value.(*ast.CompositeLit)
+							if !ok1 || !ok2 {
+								good = false
+								break
+							}
+							var vals []string
+							for _, v := range vl.Elts {
+								s, ok3 := constString(info, v)
+								good = good && ok3
+								vals = append(vals, s)
+							}
+							rows = append(rows, [2]interface{}{k, vals})
+						}
+						if good {
+							tables[id.Name] = rows
 						}
 					}
 				}
@@ -217,42 +236,199 @@ func genRules() (string, error) {
 			return true
 		})
 	}
-	if len(rules) == 0 {
-		return "", fmt.Errorf("no RegisterRuleType calls recognised")
+	// ---- the running registry is the primary source; what the source says in a recognised shape is
+	// the cross-check (a disagreement fails; an unrecognised shape falls back to the probe, softly)
+	staticRule := map[string]ruleT{}
+	for _, r := range rules {
+		if r.name != "" {
+			staticRule[r.name] = r
+		}
+	}
+	rt := rules_lib.VerifRuleTypes()
+	rtDec := rules_lib.VerifDecoderNames()
+	if len(staticRule) != len(rt) {
+		soft("Rules: %d RegisterRuleType calls recognised in the source, %d rule types registered at run time; the rest is probed", len(staticRule), len(rt))
+	}
+	for n := range staticRule {
+		found := false
+		for _, t := range rt {
+			found = found || t.Name == n
+		}
+		if !found {
+			return "", fmt.Errorf("rule type %q: RegisterRuleType call in the source but not registered at run time", n)
+		}
+	}
+	for n := range decoders {
+		found := false
+		for _, d := range rtDec {
+			found = found || d == n
+		}
+		if !found {
+			return "", fmt.Errorf("decoder %q in the source but not registered at run time", n)
+		}
+	}
+	// probe: every decoder on a pool of sample texts
+	type obs struct {
+		ok  bool
+		val any
+	}
+	probe := func(f func(string) (any, error)) (res []obs, perr error) {
+		defer func() {
+			if r := recover(); r != nil {
+				perr = fmt.Errorf("decoder panicked on a sample: %v", r)
+			}
+		}()
+		for _, s := range ruleSamples {
+			v, err := f(s)
+			res = append(res, obs{err == nil, v})
+		}
+		return
+	}
+	same := func(a, b []obs) bool {
+		for i := range a {
+			if a[i].ok != b[i].ok || (a[i].ok && !reflect.DeepEqual(a[i].val, b[i].val)) {
+				return false
+			}
+		}
+		return true
+	}
+	decObs := map[string][]obs{}
+	samplesByType := map[string][]any{}
+	for _, d := range rtDec {
+		o, err := probe(rules_lib.VerifDecoder(d))
+		if err != nil {
+			return "", fmt.Errorf("decoder %q: %v", d, err)
+		}
+		decObs[d] = o
+		seen := map[string]bool{}
+		for _, x := range o {
+			if x.ok {
+				tn := fmt.Sprintf("%T", x.val)
+				seen[tn] = true
+				if len(samplesByType[tn]) < 12 {
+					samplesByType[tn] = append(samplesByType[tn], x.val)
+				}
+			}
+		}
+		var observed []string
+		for k := range seen {
+			observed = append(observed, k)
+		}
+		sort.Strings(observed)
+		if len(observed) == 0 {
+			return "", fmt.Errorf("decoder %q accepts none of the %d sample texts", d, len(ruleSamples))
+		}
+		if st, ok := decoders[d]; ok {
+			for _, o := range observed {
+				in := false
+				for _, t := range st {
+					in = in || t == o
+				}
+				if !in {
+					return "", fmt.Errorf("decoder %q: returns a %s at run time, the source says %v", d, o, st)
+				}
+			}
+		} else {
+			soft("Rules: decoder %q is not a function literal in the source any more; value types %v observed on %d sample texts", d, observed, len(ruleSamples))
+			decoders[d] = observed
+		}
+	}
+	var typeNames []string
+	for k := range samplesByType {
+		typeNames = append(typeNames, k)
+	}
+	sort.Strings(typeNames)
+	rules = rules[:0]
+	for _, t := range rt {
+		r := ruleT{name: t.Name, order: strconv.Itoa(t.Order), hasChecker: t.ValueChecker != nil}
+		st, haveStatic := staticRule[t.Name]
+		// which named decoder is this type's decoder: behaviour on the sample pool
+		o, err := probe(t.ValueDecoder)
+		if err != nil {
+			return "", fmt.Errorf("rule type %q: %v", t.Name, err)
+		}
+		var cands []string
+		for _, d := range rtDec {
+			if same(o, decObs[d]) {
+				cands = append(cands, d)
+			}
+		}
+		if len(cands) == 0 {
+			return "", fmt.Errorf("rule type %q: its decoder behaves like none of the registered decoders on the sample texts", t.Name)
+		}
+		r.decoder = cands[0]
+		if haveStatic && st.decoder != "" {
+			in := false
+			for _, c := range cands {
+				in = in || c == st.decoder
+			}
+			if !in {
+				return "", fmt.Errorf("rule type %q: the source names decoder %q, the registered decoder behaves like %v", t.Name, st.decoder, cands)
+			}
+			r.decoder = st.decoder
+		} else if len(cands) > 1 {
+			soft("Rules: rule type %q: decoders %v are indistinguishable on the sample texts; taking %q", t.Name, cands, r.decoder)
+		}
+		if haveStatic && (st.order != r.order) {
+			return "", fmt.Errorf("rule type %q: order %s in the source, %s at run time", t.Name, st.order, r.order)
+		}
+		// which value types does the checker take without panicking
+		if r.hasChecker {
+			var accepted []string
+			for _, tn := range typeNames {
+				good := true
+				for _, v := range samplesByType[tn] {
+					func() {
+						defer func() {
+							if recover() != nil {
+								good = false
+							}
+						}()
+						(*t.ValueChecker)(v)
+					}()
+				}
+				if good {
+					accepted = append(accepted, tn)
+				}
+			}
+			if haveStatic && st.hasChecker && len(st.checker) > 0 {
+				if strings.Join(st.checker, ",") != strings.Join(accepted, ",") {
+					return "", fmt.Errorf("rule type %q: its checker asserts %v in the source, takes %v without panicking at run time", t.Name, st.checker, accepted)
+				}
+			} else {
+				soft("Rules: rule type %q: checker not a recognised function literal; accepted value types %v probed with sample values of %d types", t.Name, accepted, len(typeNames))
+			}
+			r.checker = accepted
+		} else if haveStatic && st.hasChecker {
+			return "", fmt.Errorf("rule type %q: checker in the source, none at run time", t.Name)
+		}
+		rules = append(rules, r)
 	}
 	sort.Slice(rules, func(i, j int) bool { return rules[i].name < rules[j].name })
-	// static vs running registry
-	rt := rules_lib.VerifRuleTypes()
-	if len(rt) != len(rules) {
-		return "", fmt.Errorf("%d RegisterRuleType calls in the source, %d rule types registered at run time", len(rules), len(rt))
-	}
-	byName := map[string]*rules_lib.EventRuleType{}
-	for _, t := range rt {
-		byName[t.Name] = t
-	}
-	for _, r := range rules {
-		t, ok := byName[r.name]
-		if !ok || strconv.Itoa(t.Order) != r.order || (t.ValueChecker != nil) != r.hasChecker {
-			return "", fmt.Errorf("rule type %q: source (order %s, checker %v) and running registry disagree", r.name, r.order, r.hasChecker)
-		}
-	}
-	rtDec := rules_lib.VerifDecoderNames()
-	if len(rtDec) != len(decoders) {
-		return "", fmt.Errorf("%d decoders in the source, %d at run time", len(decoders), len(rtDec))
-	}
-	for _, n := range rtDec {
-		if _, ok := decoders[n]; !ok {
-			return "", fmt.Errorf("decoder %q registered at run time but not recognised in the source", n)
-		}
-	}
+	// dependency tables: the running maps, keys sorted; the source literal (when it is one) must agree
 	for name, m := range map[string]map[string][]string{"RulesRequire": rules_lib.RulesRequire, "RulesConflictWith": rules_lib.RulesConflictWith} {
-		if len(m) != len(tables[name]) {
-			return "", fmt.Errorf("%s: %d keys in the source literal, %d at run time", name, len(tables[name]), len(m))
-		}
-		for _, kv := range tables[name] {
-			if strings.Join(m[kv[0].(string)], ",") != strings.Join(kv[1].([]string), ",") {
-				return "", fmt.Errorf("%s[%s]: source and run time disagree", name, kv[0])
+		if st, ok := tables[name]; ok && !writtenElsewhere(files, name) {
+			if len(m) != len(st) {
+				return "", fmt.Errorf("%s: %d keys in the source literal, %d at run time", name, len(st), len(m))
 			}
+			for _, kv := range st {
+				if strings.Join(m[kv[0].(string)], ",") != strings.Join(kv[1].([]string), ",") {
+					return "", fmt.Errorf("%s[%s]: source and run time disagree", name, kv[0])
+				}
+			}
+		} else if ok {
+			soft("Rules: %s has a map literal in the source but is also written elsewhere in the package; taken from the running table", name)
+		} else {
+			soft("Rules: %s is not a map literal in the source any more; taken from the running table", name)
+		}
+		var keys []string
+		for k := range m {
+			keys = append(keys, k)
+		}
+		sort.Strings(keys)
+		tables[name] = nil
+		for _, k := range keys {
+			tables[name] = append(tables[name], [2]interface{}{k, append([]string{}, m[k]...)})
 		}
 	}
 	q := func(l []string) string {
@@ -306,4 +482,70 @@ func genRules() (string, error) {
 	}
 	sb.WriteString("end Starcal.Gen\n")
 	return sb.String(), nil
+}
+
+// is the package-level table also assigned to, indexed into on the left of an assignment, deleted
+// from, address-taken or handed to a call somewhere in the package? then its literal is not the
+// whole story
+func writtenElsewhere(files []*ast.File, name string) bool {
+	found := false
+	isName := func(e ast.Expr) bool {
+		for {
+			switch x := e.(type) {
+			case *ast.ParenExpr:
+				e = x.X
+				continue
+			case *ast.IndexExpr:
+				e = x.X
+				continue
+			case *ast.Ident:
+				return x.Name == name
+			}
+			return false
+		}
+	}
+	for _, f := range files {
+		ast.Inspect(f, func(n ast.Node) bool {
+			switch x := n.(type) {
+			case *ast.AssignStmt:
+				for _, l := range x.Lhs {
+					if isName(l) {
+						found = true
+					}
+				}
+			case *ast.IncDecStmt:
+				if isName(x.X) {
+					found = true
+				}
+			case *ast.UnaryExpr:
+				if x.Op == token.AND && isName(x.X) {
+					found = true
+				}
+			case *ast.CallExpr:
+				for _, a := range x.Args {
+					if id, ok := a.(*ast.Ident); ok && id.Name == name {
+						found = true
+					}
+				}
+			}
+			return !found
+		})
+	}
+	return found
+}
+
+// sample value texts: every decoder must accept at least one, and two different decoders must
+// differ on at least one
+var ruleSamples = []string{
+	"", "abc", "sm", "7", "-3", "0", "12", "2.5", "1e3",
+	"1 2 3", "5 5 1", "0 6", "1-3 5", "1380-1383 1393", "3-1", "2 4-6 9",
+	"10:30", "10:30:15", "0:0:0", "23:59:59", "24:00",
+	"3 10:30:15", "0 0:0:0", "10 00:00", "1 2:3",
+	"10:30 12:00", "10:30:15 12:00:01", "0:0 0:0",
+	"2020/01/15", "1399/12/30", "2020-01-15", "0/1/1", "-5/3/2",
+	"2020/01/15 1399/12/30", "2020/1/1 2020/1/2 2020/1/3",
+	"2020/01/15 10:30:15", "1399/12/30 00:00:00", "2020/01/15 10:30",
+	"5 s", "10 m", "2 h", "3 d", "1.5 h", "2 w", "90 s", "1 day", "4 week",
+	"1 0 3", "-1 6 12", "2 3 0", "0 0 0", "1 2",
+	`{"weekIndex": 4, "weekDay": 6, "month": 12}`, `{"weekIndex": 1, "weekDay": 1, "month": 0}`, `{}`, `{"month": 99}`, `[1]`, `"x"`, `null`,
 }
